@@ -77,8 +77,14 @@ def make_immediate_file(context, file, mode='w', makedirs=True):
         os.makedirs(file.path.parent().string(context.env.base_dirs),
                     exist_ok=True)
 
-    with open(file.path.string(context.env.base_dirs), mode) as f:
+    # Write to a temporary file first so that the previous file stays intact
+    # (rather than empty or truncated) if we fail or get killed partway: these
+    # files are outputs of the regeneration step, and a partial one that is
+    # newer than its inputs would never be regenerated.
+    outpath = file.path.string(context.env.base_dirs)
+    with open(outpath + '.tmp', mode) as f:
         yield f
+    os.replace(outpath + '.tmp', outpath)
     context.build['regenerate'].outputs.append(file)
 
 
